@@ -216,11 +216,29 @@ func main() {
 		total.Steps += st.Steps
 		total.Reverts += st.Reverts
 	}
+	// exhaustive: every block of up to two uses of one v2 contract (revise, renew) on top of its formation, then its revert
+	{
+		p := chain.Shapes()["v2only"]
+		p.GenSC = []chain.AbsOut{{600000, "B"}, {300000, "B"}}
+		cfg := chain.BaseConfig(p)
+		cfg.Addrs = []string{"B"}
+		cfg.Templates = []string{"form2", "rev2", "renew2"}
+		cfg.Sizes, cfg.RevShifts, cfg.FormRH = []int{200}, []int{24}, [][2]int{{250024, 25}}
+		cfg.WinStarts, cfg.WinLens = []int{1}, []int{2}
+		cfg.MaxHeight, cfg.MaxTxns, cfg.MaxReverts, cfg.NoPost = 2, 2, 1, true
+		o := opts
+		o.Exhaustive = true
+		st := chain.Run(c, cfg, o)
+		total.Behaviours += st.Behaviours
+		total.Steps += st.Steps
+		total.Reverts += st.Reverts
+		c.Cov("exhaustive_v2_contract_reverts_behaviours", st.Behaviours)
+	}
 	c.Cov("same_block_combinations", combos)
 	c.Cov("reverts", reverts)
 	c.Traces(int64(total.Behaviours))
 	c.Count(int64(total.Steps), reverts)
-	for _, need := range []string{"reverted:sc-created+spent", "reverted:v2-revised", "reverted:v1-expired", "reverted:v2-resolved"} {
+	for _, need := range []string{"reverted:sc-created+spent", "reverted:v2-revised", "reverted:v1-expired", "reverted:v2-resolved", "reverted:v2-revised+resolved"} {
 		if combos[need] == 0 {
 			c.Infra("vacuity: no reverted block contained %s", need)
 		}
